@@ -18,9 +18,10 @@ CLAIMED = {
                 'remainder by a monotone comparison function + MVT), the sixth stopping test cannot fail, so the unchecked eleventh exit is unreachable (C01_newton_*).'
                 ' A healthy orbit is proved to be answered, example sets on both paths are proved to meet every hypothesis (no vacuous theorem), and the claim has an '
                 'input-only form: an accepted set with e0 <= 0.39 and TLE mean motion 6.4-18 rev/day, at its epoch or drag-free at any time, is answered within 1 mm / '
-                '1 um/s (C01_accuracy_at_epoch_or_drag_free). PARTIAL: binary64 rounding, and convergence for eL^2 > 4/25, are sampled: implementation vs an '
-                'independent binary64 evaluation of the report AND vs the same equations evaluated at 60 digits (ordinary orbits: 2e-10 km; this oracle found the 1 + '
-                'cos i cancellation near 180 deg, fixed in c31ed46), and the AIAA vectors',
+                '1 um/s (C01_accuracy_at_epoch_or_drag_free). For eL <= 0.47 (every eccentricity an accepted ordinary orbit can have) the loop is proved to leave by '
+                'its seventh test. PARTIAL: binary64 rounding, and the Lipschitz step for 0.4 < eL <= 0.47, are sampled: implementation vs an independent binary64 '
+                'evaluation of the report AND vs the same equations evaluated at 60 digits (ordinary orbits: 2e-10 km; this oracle found the 1 + cos i cancellation '
+                'near 180 deg, fixed in c31ed46), and the AIAA vectors',
         "design_ref": 'DESIGN.md 5/C01',
         "note": 'trusted: Coq kernel, stdlib real axioms (+ Uint63/float primitives via Interval in the example), translator (self-checked each run on outcome class '
                 'and state), Spec_SGP4.v transcription (cross-checked by the Gen=Spec proofs: a slip in D4 was caught that way). Known findings: C01:aiaa:29141 '
